@@ -1274,6 +1274,8 @@ impl<'a> Explorer<'a> {
                             let class = match (h.kind.rank(), s.kind.rank()) {
                                 (Some(a), Some(b)) if a > b => Some("inversion"),
                                 (Some(a), Some(b)) if a == b && (h.write || s.write) => Some("reacquire"),
+                                // read while already reading: blocks behind a queued writer (tokio's lock is fair)
+                                (Some(a), Some(b)) if a == b => Some("reacquire-read"),
                                 _ => None,
                             };
                             if let Some(class) = class {
